@@ -516,7 +516,9 @@ class C16(Prop):
         return known_hit
 
     def known_finding(self, h, il, finding):
-        return self.KNOWN if finding.get("known") else None
+        # suppressed only if known-findings.txt (committed, never written at run time) lists the class
+        listed = any(k["property"] == "C16" and k["cls"] == "inline-spill" for k in engine.known_findings()[0])
+        return self.KNOWN if finding.get("known") and listed else None
 
     def nontrivial(self, h, il):
         return {op for op in h.ops if op.startswith("HEXCONCAT ")
